@@ -7,6 +7,7 @@ A defective miniature of backup/archive.py + encryption.py in one file:
   R4  the reader asks the manifest for a key the writer never writes; the meta reader asks for `gen`
   R6  the CR is dumped with allow_unicode=True (U+0085 written raw, folded into a space by safe_load)
   R5  the reader strips the password before decrypting, the writer encrypts with it verbatim
+  R7  the generation file is written under `generations.get(name)` (truthiness): generation 0 is backed up as absent
 """
 import io
 import json
@@ -69,7 +70,7 @@ def create_backup_archive(deployments, secrets, namespace, timestamp, encryption
                     _add_bytes_to_tar(tar, f"{name}.secret.enc", encrypt(secret_yaml, encryption_password))
                 else:
                     _add_bytes_to_tar(tar, f"{name}.secret.yaml", secret_yaml)
-            if generations and name in generations:
+            if generations and generations.get(name):
                 _add_bytes_to_tar(tar, f"{name}.meta.json", json.dumps({"generation": generations[name]}).encode())
     return buf.getvalue()
 
